@@ -348,6 +348,12 @@ var reviewedLoops = []reviewedLoop{
 	{"(*Dense*Matrix).Import", -1, 4, "reader: one line per cycle until io.EOF, every other read error returns", false},
 	{"(*Dense*Matrix).Tip", 0, 1, "follows one cycle of k -> rows*k mod (mn-1); returns to its start when the receiver owns its whole storage (mn = rows*cols); the view case is reported by C10.R4", false},
 	{"(*Sparse*Matrix).Tip", 0, 1, "as dense Tip", false},
+	{"(*Dense*Matrix).PermuteRows", 0, 0, "follows one cycle of the permutation: every pass marks an unmarked index in done[], so at most n passes", false},
+	{"(*Dense*Matrix).PermuteColumns", 0, 0, "as PermuteRows", false},
+	{"(*Sparse*Matrix).PermuteRows", 0, 0, "as dense PermuteRows", false},
+	{"(*Sparse*Matrix).PermuteColumns", 0, 0, "as dense PermuteRows", false},
+	{"(Dense*Vector).Permute", 0, 0, "follows one cycle of the permutation: every pass marks an unmarked index in done[], so at most n passes", false},
+	{"(*Sparse*Vector).Permute", 0, 0, "as dense Permute", false},
 	{"(*AvlTree).FindNode", 0, 1, "descent: strictly down a finite acyclic tree (C19.R1)", false},
 	{"(*AvlTree).FindNodeLE", 0, 1, "descent: strictly down a finite acyclic tree (C19.R1)", false},
 	{"NewAvlIterator", 0, 0, "descent to the leftmost node", false},
